@@ -18,8 +18,8 @@ import (
 	pd "github.com/tikv/pd/client"
 	"github.com/tikv/pd/client/clients/router"
 	"github.com/tikv/pd/client/opt"
-	"github.com/tikv/pd/client/pkg/circuitbreaker"
 	"github.com/tikv/pd/client/pkg/caller"
+	"github.com/tikv/pd/client/pkg/circuitbreaker"
 )
 
 // PD wrapper attaching bucket keys (memcomparable, as PD reports them) to GetRegion answers
